@@ -287,6 +287,7 @@ func C20(tier string) *engine.Report {
 	rep := engine.NewReport("C20", tier, "model_checking")
 	var tot engine.BFSTotals
 	for _, sp := range c20Specs(tier) {
+		sp.Until = engine.Cap(tier)
 		tot.Add(sp.Name, sp.Run(), rep)
 	}
 	tot.Fill(rep, "reachable states of a real ByteBuffer + SlotSequencer (push any seq/len incl. duplicates and over capacity, pop any seq, reset) and of a ByteBuffer + bare SlotOffsetter, "+
